@@ -1,5 +1,5 @@
 #!/usr/bin/env python3
-"""Must-fail corpus: each case is a small property-breaking edit applied to a scratch copy of /repo (outside
+"""Must-fail corpus (plus a few must-stay-quiet harmless edits, "harmless": true): each case is a small property-breaking edit applied to a scratch copy of /repo (outside
 /repo and /verif, removed immediately); the named property check must report a VIOLATION. Usage:
    selftest/run.py [Cxx ...]      (no argument = all cases)
 Exit 0 iff every selected case is detected."""
@@ -31,6 +31,14 @@ for c in cases:
         e2 = dict(env, GOVC_REPO=d, GOVC_VERIF=VERIF, GOVC_SELFTEST="1", GOVC_TIMEOUT="4")
         r = subprocess.run([os.path.join(VERIF, "bin", "govc"), "check", c["prop"], "quick"], env=e2, capture_output=True, text=True)
         viol = [l for l in r.stdout.splitlines() if l.startswith("VIOLATION")]
+        if c.get("harmless"):
+            if r.returncode == 0 and not viol:
+                print("quiet     %-28s %s  (harmless edit, no alarm)" % (c["id"], c["prop"]))
+            else:
+                first = [l for l in r.stdout.splitlines() if l.startswith("  failed obligation")][:1]
+                print("FALSE-ALARM %-26s %s  %s" % (c["id"], c["prop"], (first[0].strip()[:140] if first else "")))
+                missed.append(c["id"])
+            continue
         if r.returncode == 1 and viol:
             first = [l for l in r.stdout.splitlines() if l.startswith("  failed obligation")][:1]
             print("detected  %-28s %s  %s" % (c["id"], c["prop"], (first[0].strip()[:110] if first else "")))
